@@ -63,7 +63,8 @@ class JobSpec:
     ext: list  # [(task, output)]
 
     def describe(self):
-        return {"tasks": {k: {"outputs": v["outputs"], "ps": v.get("static_ps", {}), "kw": v.get("static_kw", {}), "gpu": v.get("gpu", False)} for k, v in self.tasks.items()},
+        return {"tasks": {k: {"outputs": v["outputs"], "ps": v.get("static_ps", {}), "kw": v.get("static_kw", {}), "gpu": v.get("gpu", False),
+                              **({"share": v["share"]} if v.get("share") is not None else {})} for k, v in self.tasks.items()},
                 "edges": [list(e) for e in self.edges], "ext": [list(e) for e in self.ext]}
 
 
@@ -654,3 +655,19 @@ def random_job(rng, n):
     allds = [(t, o) for t, v in tasks.items() for o in v["outputs"]]
     ext = [d for d in allds if rng.random() < 0.4] or allds[-1:]
     return JobSpec(tasks, edges, ext)
+
+
+def replay_case(doc):
+    """re-run one recorded (job, environment, schedule) on the current tree; returns the list of (property, obligation, observed) it violates"""
+    inp = doc["inputs"]
+    j = inp["job"]
+    tasks = {}
+    for k, v in j["tasks"].items():
+        t = {"outputs": list(v["outputs"]), "static_ps": {int(a): b for a, b in v.get("ps", {}).items()}, "static_kw": dict(v.get("kw", {})), "gpu": v.get("gpu", False)}
+        if "share" in v:
+            t["share"] = v["share"]
+        tasks[k] = t
+    spec = JobSpec(tasks, [tuple(e) for e in j["edges"]], [tuple(e) for e in j["ext"]])
+    gpus = {tuple(g) for g in inp.get("gpus", [])}
+    ok, info = run_one(spec, inp["hosts"], inp["workers"], gpus, inp.get("seed", 0), prefix=doc.get("schedule"), fifo=inp.get("fifo", True), lazy=inp.get("lazy", False))
+    return [(v["prop"], v["obligation"], v["observed"]) for v in info["all"]]
